@@ -488,4 +488,15 @@ def build_unit(repo, unit_dir, unit, out_path):
     text = ''.join(parts)
     with open(out_path, 'w') as f:
         f.write(text)
+    # mechanical scan for assumptions (reported in the evidence, never hidden):
+    pre_txt = spec.get(('prelude', None, None), '')
+    har_txt = spec.get(('harness', None, None), '')
+    inj_txt = ''.join(v for k, v in spec.items() if k[0] in ('entry', 'head', 'tail', 'pre', 'post', 'at'))
+    scan = {
+        '__CPROVER_assume in prelude (stub models of callees = assumed contracts)': len(re.findall(r'__CPROVER_assume', pre_txt)),
+        '__CPROVER_assume in harness (preconditions of the enforced contract / state construction)': len(re.findall(r'__CPROVER_assume', har_txt)),
+        '__CPROVER_assume in blocks injected into extracted bodies (must be 0: only GV_INST may assume)': len(re.findall(r'__CPROVER_assume', inj_txt)),
+        'GV_INST instantiations of stated structure preconditions in injected blocks': len(re.findall(r'\bGV_INST\s*\(', inj_txt)),
+    }
+    fires['__assume_scan__'] = scan
     return info, fires, text
